@@ -190,7 +190,8 @@ class HidWorld(World):
         self.driver.exceptions_on_send = self.exceptions_on_send
         self.driver.connection_status_callback.register(
             lambda drv, status: self.status_log.append((round(self.loop.time(), 6), status)))
-        self.driver.bus_traffic.register(self._traffic(0))
+        if getattr(self, "perm_subscriber", True):
+            self.driver.bus_traffic.register(self._traffic(0))
         self.driver.connect()
         self.gateway.observe = list(self.foreign)      # (opening the device resets the gateway model)
 
